@@ -30,7 +30,10 @@ ENCODINGS = ('int', 'collide', 'ident', 'tuple', 'mixed', 'selfneq', 'ident_eq')
 # how the edges are handed to add_neighbors
 BUILDS = ('list', 'set', 'shared', 'steps', 'empty_first', 'unknown_first', 'gen', 'gen_unknown',
           # ignore_unknown=False (every neighbour is known): lists, sets, one-shot iterators
-          'list_strict', 'set_strict', 'gen_strict', 'map_strict')
+          'list_strict', 'set_strict', 'gen_strict', 'map_strict',
+          # nodes announced more than once / step by step while edges are
+          # already being added (incremental construction of an object graph)
+          'reannounce', 'incremental')
 
 
 def setup_worker():
@@ -185,7 +188,9 @@ def run_graph(n, bits, enc, perm, lazy, unknown, build='list'):
     back = {(v if mh is None else id(v)): i for i, v in enumerate(vals)}
     viol = []
     try:
-        if build in ('gen', 'gen_unknown'):
+        if build == 'incremental':
+            g = DiGraph(make_hashable=mh) if mh is None else DiGraph()
+        elif build in ('gen', 'gen_unknown'):
             # the documented argument type is "iterator": one-shot generators
             g = DiGraph((v for v in vals), make_hashable=mh) if mh is None else DiGraph(v for v in vals)
         else:
@@ -215,6 +220,19 @@ def run_graph(n, bits, enc, perm, lazy, unknown, build='list'):
                 if nbs[i] or build == 'gen_unknown':
                     g.add_neighbors(vals[i], itertools.chain((x for x in nbs[i]),
                                                              iter([unk] if build == 'gen_unknown' else [])))
+        elif build == 'reannounce':
+            for i in range(n):
+                if nbs[i]:
+                    g.add_neighbors(vals[i], nbs[i])
+                # the node (and what it points to) is announced again later
+                g.add_nodes([vals[i]] + nbs[i])
+            g.add_nodes(vals)
+        elif build == 'incremental':
+            # add_nodes([obj] + referents); add_neighbors(obj, referents) per object
+            for i in range(n):
+                g.add_nodes([vals[i]] + nbs[i])
+                if nbs[i]:
+                    g.add_neighbors(vals[i], nbs[i], ignore_unknown=False)
         elif build.endswith('_strict'):
             for i in range(n):
                 if nbs[i]:
